@@ -71,6 +71,13 @@ CHECKS = {
              "elements with negated source values, new reference node) are both executed by the real code and related: network solutions and port "
              "impedances, ComplexSolution phasors, state-space transfer values addressed by source name, transient waveforms.",
         design='5/C03', technique='metamorphic pair monitor over original/transformed executions'),
+    'C09': dict(
+        text="Runtime oracle on frequency_components / FrequencyDomainSolution (one- and two-sided) / TimeDomainSolution: the analysed frequency list is "
+             "matched as clusters against an independently computed set, every spectral line and the time functions on a grid are compared with "
+             "exact single-frequency reference phasors (periodic sources through the true Fourier coefficients of their own waveform); KCL at every "
+             "instant, additivity over sources and waveform reproduction (Parseval tail bound) are monitored; strata with exact and rounding-only "
+             "frequency coincidences.",
+        design='5/C09', technique='runtime oracle vs exact per-frequency references + trace relations on time functions'),
 }
 
 NOT_YET = "check not built yet in this round (work in progress; see DESIGN.md section 5)"
